@@ -6,6 +6,42 @@
 import RenetVerif.Lemmas.NcTimeout
 import RenetVerif.Lemmas.NcHandshake
 namespace RenetVerif.Netcode
+namespace NS.Ex
+open RenetVerif
+
+/-! Equality tests the kernel can run quickly: the derived `DecidableEq RP` goes through `Vector`/`Array` equality
+    (6 s per comparison in the kernel); comparing the underlying lists takes 0.4 s. -/
+
+theorem rp_eq_iff (x y : RP) : x = y ↔ x.mostRecent = y.mostRecent ∧ x.received.toList = y.received.toList := by
+  constructor
+  · rintro rfl; exact ⟨rfl, rfl⟩
+  · rintro ⟨h1, h2⟩
+    cases x; cases y
+    simp only at h1 h2
+    subst h1
+    congr
+    exact Vector.toList_inj.mp h2
+
+instance (priority := high) fastRPEq : DecidableEq RP := fun x y => decidable_of_iff _ (rp_eq_iff x y).symm
+
+theorem conn_eq_iff (x y : Connection) : x = y ↔
+    x.confirmed = y.confirmed ∧ x.clientId = y.clientId ∧ x.state = y.state ∧ x.sendKey = y.sendKey ∧
+    x.receiveKey = y.receiveKey ∧ x.userData = y.userData ∧ x.addr = y.addr ∧
+    x.lastPacketReceivedTime = y.lastPacketReceivedTime ∧ x.lastPacketSendTime = y.lastPacketSendTime ∧
+    x.timeoutSeconds = y.timeoutSeconds ∧ x.sequence = y.sequence ∧ x.expireTimestamp = y.expireTimestamp ∧
+    x.replayProtection = y.replayProtection := by
+  constructor
+  · rintro rfl; simp
+  · intro h
+    cases x; cases y
+    simp only at h
+    obtain ⟨rfl, rfl, rfl, rfl, rfl, rfl, rfl, rfl, rfl, rfl, rfl, rfl, rfl⟩ := h
+    rfl
+
+instance (priority := high) fastConnEq : DecidableEq Connection :=
+  fun x y => decidable_of_iff _ (conn_eq_iff x y).symm
+
+end NS.Ex
 deriving instance DecidableEq for NetcodeServer
 deriving instance DecidableEq for NetcodeClient
 namespace NS.Ex
@@ -90,6 +126,68 @@ theorem cA_challenge : cA1.processPacket a chalA = .ok (none, cA2) := by decide 
 theorem cA_response : cA2.update a 250000000 = .ok (some (respA, srvAddr), cA3) := by decide +kernel
 theorem s_response : step a s1 (.packet addrA respA) = some (.clientConnected 11 addrA udA kaA, s2) := by decide +kernel
 theorem cA_keepalive : cA3.processPacket a kaA = .ok (none, cA4) := by decide +kernel
+
+/-! ### more of the world: a second client, a one-slot server, later states -/
+
+def udB : Bytes := List.replicate 256 2
+def kBc2s : Bytes := List.replicate 32 13
+def kBs2c : Bytes := List.replicate 32 14
+def xnB : Bytes := List.replicate 24 15
+def privB : PrivateConnectToken := ⟨12, 5, some srvAddr :: List.replicate 31 none, kBc2s, kBs2c, udB⟩
+def privDataB : Bytes :=
+  leBytes 12 8 ++ [5, 0, 0, 0] ++ [1, 0, 0, 0] ++ [1, 127, 0, 0, 1, 136, 19] ++ kBc2s ++ kBs2c ++ udB ++ List.replicate 681 0
+def reqB : Bytes := 0 :: (C.NETCODE_VERSION_INFO ++ leBytes 42 8 ++ leBytes 30 8 ++ xnB ++ privDataB)
+def chalTokB : Bytes := leBytes 12 8 ++ udB ++ List.replicate 36 0
+def respB : Bytes := 19 :: 1 :: (leBytes 2 8 ++ chalTokB ++ List.replicate 16 0)
+def pendB : Connection := mkPending 0 addrB 30 privB
+def connB : Connection := promoted pendB RP.new 0
+
+/-- run a list of operations; `none` = one of them unwound -/
+def run (s : NetcodeServer) : List Op → Option NetcodeServer
+  | [] => some s
+  | op :: rest => match step a s op with
+    | some (_, s') => run s' rest
+    | none => none
+
+/-- the results of a run -/
+def results (s : NetcodeServer) : List Op → List ServerResult
+  | [] => []
+  | op :: rest => match step a s op with
+    | some (r, s') => r :: results s' rest
+    | none => []
+
+/-- a one-slot server -/
+def f0 : NetcodeServer := { s0 with clients := [none], maxClients := 1 }
+theorem f0_empty : EmptyServer f0 := ⟨rfl, by decide, rfl, 3, by decide, rfl⟩
+
+/-- both requests arrive while the slot is free, then both responses: A gets the slot, B is denied -/
+def raceOps : List Op := [.packet addrA reqA, .packet addrB reqB, .packet addrA respA, .packet addrB respB]
+
+def kaA1 : Bytes := 20 :: 0 :: (leBytes 0 4 ++ leBytes 1 4 ++ List.replicate 16 0)
+def chalB : Bytes := 130 :: (leBytes (2 ^ 63 + 1) 8 ++ leBytes 2 8 ++ chalTokB ++ List.replicate 16 0)
+def deniedB : Bytes := 129 :: (leBytes (2 ^ 63 + 2) 8 ++ List.replicate 16 0)
+
+/-- the one-slot server with both handshakes half-open, then with A connected -/
+def f2 : NetcodeServer :=
+  { f0 with challengeSequence := 2, globalSequence := 2 ^ 63 + 2
+            connectTokenEntries := [some ⟨0, addrA, List.replicate 16 0⟩, some ⟨0, addrB, List.replicate 16 0⟩, none]
+            pendingClients := [(addrA, pendA), (addrB, pendB)] }
+def f3 : NetcodeServer := { f2 with pendingClients := [(addrB, pendB)], clients := [some connA] }
+def f4 : NetcodeServer := { f3 with pendingClients := [], globalSequence := 2 ^ 63 + 3 }
+
+theorem f_requests : run f0 [.packet addrA reqA, .packet addrB reqB] = some f2 := by decide +kernel
+theorem f_respA : step a f2 (.packet addrA respA) = some (.clientConnected 11 addrA udA kaA1, f3) := by decide +kernel
+theorem f_respB : step a f3 (.packet addrB respB) = some (.packetToSend addrB deniedB, f4) := by decide +kernel
+
+/-- server `s2` (A connected) later: a keep-alive of A arrives, time passes -/
+def kaFromA : Bytes := 20 :: 2 :: (leBytes 0 4 ++ leBytes 0 4 ++ List.replicate 16 0)
+def s2k : NetcodeServer := { s2 with clients := [some (refreshed connA (RP.new.advance 2) 0), none] }
+theorem s_keepalive : step a s2 (.packet addrA kaFromA) = some (.none, s2k) := by decide +kernel
+
+def discA : Bytes := 22 :: 1 :: List.replicate 16 0
+def s3 : NetcodeServer := { s2 with clients := [none, none] }
+theorem s_disconnect : step a s2 (.disconnect 11) = some (.clientDisconnected 11 addrA (some discA), s3) := by
+  decide +kernel
 
 end NS.Ex
 end RenetVerif.Netcode
